@@ -3,12 +3,6 @@
 //! Add-only: re-exports and thin wrappers around items that are private,
 //! `pub(crate)` or `cfg(test)` so that an external harness crate can drive
 //! them. Nothing here changes behaviour; without the feature this module is
-//! not compiled.
+//! not compiled. One file per area.
 
-pub mod ingress {
-    pub use crate::ingress::{IngressId, IngressInfo, Register};
-
-    pub fn new_register() -> Register {
-        Register::verif_with_serial(1)
-    }
-}
+pub mod ingress;
